@@ -308,7 +308,7 @@ def main(argv):
         tier = os.environ["VERIF_TIER"]
     seed = os.environ.get("VERIF_SEED", "1")
     try:
-        seed = str(int(seed) % 1000000007)
+        seed = str(int(seed) % 99991)
     except ValueError:
         seed = str(int(hashlib.sha1(seed.encode()).hexdigest()[:8], 16))
     if pid not in props.PROPS:
